@@ -635,3 +635,57 @@ Section items.
       + rewrite fmap_app. set_solver.
   Qed.
 End items.
+
+(* ------------------------------------------------------------------ module(): marks and unused constants do not change the function *)
+Lemma node_ok_set_out v x b i : node_ok v x (set_out b i) ↔ node_ok v x i.
+Proof. by destruct i. Qed.
+Lemma set_output_consistent g l g' v : set_output_g g l true = (g', Done) → consistent g' v → consistent g v.
+Proof.
+  intros H Hv. apply set_output_spec in H as [_ Hl]. intros x i Hi. pose proof (Hv x) as Hx. rewrite Hl, Hi in Hx. simpl in Hx.
+  specialize (Hx _ eq_refl). case_bool_decide; [by apply (node_ok_set_out v x true)|done].
+Qed.
+Lemma remove_lookup (g : circuit) t x : x ≠ t → remove_g g [t] !! x = upd_fi (λ fi, fi ∖ list_to_set [t]) <$> g !! x.
+Proof.
+  intros Hx. unfold remove_g. rewrite lookup_fmap. destruct (g !! x) as [i|] eqn:E.
+  - rewrite (map_filter_lookup_Some_2 _ _ _ i); [done|done|]. simpl. set_solver.
+  - rewrite map_filter_lookup_None_2; [done|by left].
+Qed.
+Lemma drop_lookup (g : circuit) t x i : x ≠ t → g !! x = Some i → ∃ i', drop_tie g t !! x = Some i' ∧ n_ty i' = n_ty i.
+Proof.
+  intros Hx Hi. unfold drop_tie. case_bool_decide; [|eauto]. rewrite remove_lookup, Hi by done. simpl. eauto.
+Qed.
+Definition const_val (i : ninfo) (d : bool) : bool := match n_ty i with C0 => false | C1 => true | _ => d end.
+Lemma drop_consistent (g : circuit) t i v : g !! t = Some i → n_ty i ∈ [C0; C1; CX] → consistent (drop_tie g t) v →
+  consistent g (λ x, if bool_decide (x = t) then const_val i (v t) else v x).
+Proof.
+  intros Hi Hty Hv. set (v1 := λ x, if bool_decide (x = t) then const_val i (v t) else v x).
+  assert (Hv1 : ∀ x, x ≠ t → v1 x = v x) by (intros x Hx; unfold v1; by rewrite bool_decide_eq_false_2).
+  assert (Hfree : is_free i = false ∨ n_ty i = CX).
+  { rewrite !elem_of_cons, elem_of_nil in Hty. destruct Hty as [E|[E|[E|[]]]]; [left|left|right]; unfold is_free; rewrite E; done. }
+  unfold drop_tie in Hv. case_bool_decide as Hfo.
+  - (* removed: nothing reads t *)
+    assert (Hno : ∀ x j, g !! x = Some j → t ∉ n_fi j).
+    { intros x j Hj Hin. assert (x ∈ fanout g t) by (apply elem_of_fanout; eauto). set_solver. }
+    intros x j Hj. destruct (decide (x = t)) as [->|Hx].
+    + assert (j = i) as -> by congruence. unfold node_ok, v1. rewrite bool_decide_eq_true_2 by done. unfold const_val.
+      rewrite !elem_of_cons, elem_of_nil in Hty. unfold is_free. destruct Hty as [E|[E|[E|[]]]]; rewrite E; done.
+    + pose proof (Hv x) as Hx'. rewrite remove_lookup, Hj in Hx' by done.
+      specialize (Hx' (upd_fi (λ fi : gset string, fi ∖ list_to_set [t]) j) eq_refl).
+      assert (Hid : upd_fi (λ fi : gset string, fi ∖ list_to_set [t]) j = j).
+      { apply upd_fi_id. specialize (Hno x j Hj). set_solver. }
+      rewrite Hid in Hx'. eapply (node_ok_ext v v1 x x); [by rewrite Hv1| |by apply Hx'].
+      intros f Hf. rewrite Hv1; [done|]. intros ->. by eapply Hno.
+  - (* kept: v already gives t its constant *)
+    assert (Heq : ∀ x, v1 x = v x).
+    { intros x. destruct (decide (x = t)) as [->|Hx]; [|by apply Hv1]. unfold v1. rewrite bool_decide_eq_true_2 by done.
+      pose proof (Hv t i Hi) as Hn. unfold node_ok, const_val in *. rewrite !elem_of_cons, elem_of_nil in Hty. unfold is_free in Hn.
+      destruct Hty as [E|[E|[E|[]]]]; rewrite E in *; done. }
+    intros x j Hj. eapply (node_ok_ext v v1 x x); [by rewrite Heq|intros; by rewrite Heq|by apply Hv].
+Qed.
+Lemma drop_refines k (g : circuit) t i : g !! t = Some i → n_ty i ∈ [C0; C1; CX] → t ∉ k_rsv k → (t = k_tx k → n_ty i = CX) →
+  refines_rsv k g (drop_tie g t).
+Proof.
+  intros Hi Hty Hr Hx v Hv. eexists. split; [by eapply drop_consistent|]. split.
+  - intros s Hs. rewrite bool_decide_eq_false_2; [done|]. intros ->. done.
+  - case_bool_decide as E; [|done]. unfold const_val. rewrite (Hx (eq_sym E)). by rewrite E.
+Qed.
